@@ -908,6 +908,33 @@ func genC12(e *emitter, r *rng, thorough bool) {
 			e.emit("recover.tiny", "compact.recover "+hx(mk(hb, big.NewInt(rr), big.NewInt(rr+1)))+" "+hx(h))
 		}
 	}
+	// constructed doubling: R = kG, any s, e = -s k  =>  sR and -eG are the SAME point: the last addition of the
+	// recovery is a doubling (an addition formula without the tangent case returns garbage there)
+	for i := 0; i < 6; i++ {
+		k := modN(new(big.Int).SetBytes(r.bytes(32)))
+		if i < 2 {
+			k = big.NewInt(int64(1 + i))
+		}
+		if k.Sign() == 0 {
+			continue
+		}
+		R := mulG(k)
+		if R.x.Cmp(curveN) >= 0 {
+			continue
+		}
+		ss := modN(new(big.Int).SetBytes(r.bytes(32)))
+		if i == 0 {
+			ss = big.NewInt(1)
+		}
+		if ss.Sign() == 0 {
+			continue
+		}
+		ee := modN(new(big.Int).Neg(new(big.Int).Mul(ss, k)))
+		hb := byte(27 + R.y.Bit(0))
+		e.emit("recover.doubling", "compact.recover "+hx(mk(hb, R.x, ss))+" "+hx(pad32(ee.Bytes())))
+		e.emit("recover.doubling-c", "compact.recover "+hx(mk(hb+4, R.x, ss))+" "+hx(pad32(ee.Bytes())))
+		e.emit("recover.doubling.other-parity", "compact.recover "+hx(mk(hb^1, R.x, ss))+" "+hx(pad32(ee.Bytes())))
+	}
 	// constructed infinity: R = kG, s = e/k  =>  s R = e G  =>  Q = r^-1 (sR - eG) = infinity
 	nInf := 6
 	if thorough {
